@@ -124,3 +124,29 @@ package codegen
 //@   ensures* names.the.runtime.constant: (formatName == "date" ==> result == "goa.FormatDate") && (formatName == "date-time" ==> result == "goa.FormatDateTime") && (formatName == "uuid" ==> result == "goa.FormatUUID") && (formatName == "email" ==> result == "goa.FormatEmail") && (formatName == "hostname" ==> result == "goa.FormatHostname") && (formatName == "ipv4" ==> result == "goa.FormatIPv4") && (formatName == "ipv6" ==> result == "goa.FormatIPv6") && (formatName == "ip" ==> result == "goa.FormatIP") && (formatName == "uri" ==> result == "goa.FormatURI") && (formatName == "mac" ==> result == "goa.FormatMAC") && (formatName == "cidr" ==> result == "goa.FormatCIDR") && (formatName == "regexp" ==> result == "goa.FormatRegexp") && (formatName == "json" ==> result == "goa.FormatJSON") && (formatName == "rfc1123" ==> result == "goa.FormatRFC1123")
 //@   modifies* nothing
 //@   frameprop C01
+
+// ---- which required attributes get a nil check (C14) ------------------------------------------
+// "Required-field checks skipped for non-nilable primitives": the generated validator (and therefore the
+// server) checks a required attribute for presence exactly when the Go field can be nil: always, except for a
+// primitive that is neither bytes nor any held by value, and for primitives when required-ness is ignored.
+// The list is built in the order of the design's required list (per-iteration relation; Object.Attribute and
+// IsPrimitive are abstracted as functions of their arguments at the call).
+//@ smt (declare-fun objAttrSpec (Int String) Int)
+//@ smt (declare-fun isPrimSpec (Iface) Bool)
+//@ func generatedRequiredValidation
+//@   params att attCtx
+//@   locals res obj
+//@   property C14
+//@   requires att != nil && attCtx != nil
+//@   callspec (*Object).Attribute params o n
+//@       ensures result == ptr(*expr.AttributeExpr, objAttrSpec(o, n)) && result <= alloc() && result >= 0
+//@       modifies nothing
+//@   callspec IsPrimitive params dt
+//@       ensures result == isPrimSpec(dt)
+//@       modifies nothing
+//@   let cur = ranged(1)[rangeindex]
+//@   let ra = ptr(*expr.AttributeExpr, objAttrSpec(obj, cur))
+//@   let exempt = ra == nil || (!attCtx.Pointer && isPrimSpec(ra.Type) && kindOf(ra.Type) != expr.BytesKind && kindOf(ra.Type) != expr.AnyKind) || (attCtx.IgnoreRequired && isPrimSpec(ra.Type))
+//@   loop 1 invariant* walks.required: att.Validation != nil && ranged(1) == att.Validation.Required && (res.arr == 0 || sinceEntry(res))
+//@   loop 1 step* presence.checked.unless.not.nilable: len(res) == prev(1, len(res)) + ite(exempt, 0, 1) && (!exempt ==> res[len(res) - 1] == cur) && (forall k int :: 0 <= k && k < prev(1, len(res)) ==> res[k] == prev(1, res[k]))
+//@   modifies nothing
